@@ -32,8 +32,9 @@ accumulator* (Lemmas/Descriptor2.lean proves `encW v = (encT v, (encT v).length)
 
 The reader is the cursor machine of Model/Codec.lean. `K.read` recurses through `TYPES`; the model
 recursion is on a fuel argument (`decBody`), `dec` supplies `stream length + 1`, which is never exhausted
-because every nesting level consumes at least four bytes (Lemmas: `need_le`). CPython's own recursion limit
-is not modelled (a descriptor nested several hundred levels deep raises `RecursionError` in Python).
+because every nesting level consumes at least four bytes (`C01Descriptor.dec_never_out_of_fuel`, Lemmas/Descriptor4.lean;
+`need_le` for written values). CPython's own recursion limit is not modelled (a descriptor nested several hundred
+levels deep raises `RecursionError` in Python).
 
 Core Lean only.
 -/
